@@ -4,6 +4,7 @@
 //! Operations are first generated (corpus / replay file first, then from one PRNG seed) as plain
 //! op lines, then executed one by one against the real crates under `catch_unwind`.
 
+mod client;
 mod proto;
 mod frame;
 mod cmd;
@@ -32,6 +33,7 @@ struct Family {
 const FAMILIES: &[Family] = &[
     Family { name: "tags", gen: tags::gen, exec: tags::exec },
     Family { name: "proto", gen: proto::gen, exec: proto::exec },
+    Family { name: "loop", gen: client::gen, exec: client::exec },
     Family { name: "frame", gen: frame::gen, exec: frame::exec },
     Family { name: "cmd", gen: cmd::gen, exec: cmd::exec },
     Family { name: "song", gen: song::gen, exec: song::exec },
